@@ -60,12 +60,18 @@ def C37(ctx):
     pairs = [c for c in cases if c["m"] == "pair"]
     multi = [c for c in cases if c["m"] == "multi"]
     cons = [c for c in cases if c["m"] == "constraint"]
+    bks = [c for c in cases if c["m"] == "buckets"]
     # non-vacuity of the universe
     need = [("valid satisfied pairs of both kinds", {c["b"]["kind"] for c in pairs if c["valid"] and c["sat"]} == {"f", "nf"}),
             ("valid unsatisfied pairs", any(c["valid"] and not c["sat"] for c in pairs)),
             ("every constraint form", {c["c"]["t"] for c in cons} == {"nonzero", "exact", "atleast", "exactnf", "atleastnf", "general"}),
             ("constraints valid for exactly one kind", any(c["validf"] != c["validnf"] for c in cons)),
             ("multi-resource cases of both modes and verdicts", {(c["only"], c["sat"]) for c in multi} == {(True, True), (True, False), (False, True), (False, False)})]
+    two_nf = lambda c: sum(1 for b in c["bseq"] if b["r"] == 3 and b["bal"]["ids"]) >= 2
+    need += [("returned-bucket sequences of both modes and verdicts", {(c["only"], c["sat"]) for c in bks} == {(True, True), (True, False), (False, True), (False, False)}),
+             ("calls returning two non-empty buckets of one non-fungible resource, accepted and rejected", {c["sat"] for c in bks if two_nf(c) and c["cs"][2]} == {True, False}),
+             ("calls returning two buckets of one fungible resource", any(sum(1 for b in c["bseq"] if b["r"] == 1 and b["bal"]["a"] > 0) >= 2 and c["cs"][0] and c["sat"] for c in bks)),
+             ("returned empty buckets", any(any(b["bal"].get("a") == 0 or b["bal"].get("ids") == [] for b in c["bseq"]) for c in bks))]
     for what, ok in need:
         if not ok:
             raise ToolError("vacuous Constraint universe: no %s" % what)
@@ -137,15 +143,18 @@ def C37(ctx):
     ctx.sample({"pair_case": next(c for c in pairs if c["valid"] and c["c"]["t"] == "general" and c["c"]["req"] and c["sat"])})
     ctx.sample({"constraint_case": next(c for c in cons if c["c"]["t"] == "general" and c["validnf"] and not c["validf"])})
     ctx.sample({"multi_case": next(c for c in multi if c["only"] and not c["sat"])})
+    ctx.sample({"returned_buckets_case": next(c for c in bks if two_nf(c) and c["cs"][2] and c["sat"])})
     ctx.sample({"ledger_outcomes": lcounts})
     return {"exhaustive": True, "distinct_nontrivial": len({json.dumps(c, sort_keys=True) for c in cases}),
-            "constraints": len(cons), "pairs": len(pairs), "multi_resource_cases": len(multi),
+            "constraints": len(cons), "pairs": len(pairs), "multi_resource_cases": len(multi), "returned_bucket_sequences": len(bks),
             "ledger_cases": len(sample), "ledger_transactions": ldone["steps"],
             "unit_mismatch_counts": counts, "violation_counts": dict(viol.seen),
             "rule": "S+G: TLC enumerates every constraint over amounts %s (plus -1/2; scale 4 = one whole unit, 1 = one atto) and ids %s "
                     "(all six forms; General = every combination of required ids, lower bound incl. NonZero, upper bound incl. Unbounded, "
                     "Any / every allowlist), every fungible amount of %s and every id set, and 6 750 three-resource assertions "
-                    "(only / include); the laws of Constraint.tla are invariants and every state is printed with ValidFor / Sat.  Unit "
+                    "(only / include), and 28 728 assertions on what a call returned as a SEQUENCE of 1-3 buckets (7 bucket choices incl. empty ones, same / "
+                    "different resources; aggregate = sum of amounts / union of ids, through AggregateResourceBalances::add_fungible / "
+                    "add_non_fungible); the laws of Constraint.tla are invariants and every state is printed with ValidFor / Sat.  Unit "
                     "level: every case through the real is_valid_for, validate_fungible / validate_non_fungible (before and after "
                     "normalize) and ManifestResourceConstraints::validate.  Ledger level: a stratified sample (per constraint form x "
                     "resource kind x verdict x bound kinds) of valid pairs, each as 5 V2 manifests (ASSERT_WORKTOP_RESOURCES_ONLY / "
